@@ -9,7 +9,7 @@ def main():
     if sys.argv[1] == 'add':
         prop, sig, status, replay, commit = sys.argv[2:7]
         what = ' '.join(sys.argv[7:])
-        ff['findings'] = [f for f in ff['findings'] if f['signature'] != sig]
+        ff['findings'] = [f for f in ff['findings'] if not (f['signature'] == sig and f['replay'] == replay)]
         e = {'property': prop, 'signature': sig, 'status': status, 'what_fails': what, 'replay': replay}
         if commit != '-':
             e['commit'] = commit
